@@ -341,7 +341,7 @@ func c22Run(r *simkit.Run) {
 		r.Sched(simkit.SchedOpts{MaxSteps: 200000})
 	}
 
-	if r.Live() > 0 {
+	if r.Unfinished() {
 		r.Fail("liveness", "pool", "clients did not finish")
 	}
 }
